@@ -42,6 +42,8 @@ def pauli_expect(psi, term, n):
 
 def _num(v):
     """float of a frequency value (numpy float, or a sympy number possibly carrying a ~1e-20 imaginary rounding residue)."""
+    if isinstance(v, np.ndarray):         # (sympy + empty circuit + column-vector initial state returns 1-element arrays)
+        v = v.reshape(-1)[0] if v.size == 1 else float("nan")
     try:
         return float(v)
     except TypeError:
@@ -52,6 +54,8 @@ def _num(v):
 
 def sympy_to_numpy(sv):
     import sympy
+    if isinstance(sv, np.ndarray):        # the empty-circuit shortcut hands the user's numpy state back
+        return np.asarray(sv, dtype=complex).reshape(-1)
     return np.array([complex(sympy.N(x)) for x in list(sv)], dtype=complex)
 
 
@@ -61,7 +65,20 @@ class _DeviceBase(World):
         ns = self.config["n_shots"]
         self.backends = {"cirq": get_backend("cirq"), "cirq_shots": get_backend("cirq", n_shots=ns),
                          "sympy": get_backend("sympy"), "stub": get_backend(D.shot_only_device(), n_shots=ns)}
+        self.model_shots = {"cirq": None, "cirq_shots": ns, "sympy": None, "stub": ns}
         self.sympy_used = 0
+
+    def _backend_config_violations(self, prop, site):
+        """The user-visible configuration of every long-lived backend must be what the user set (also after refused calls)."""
+        V = []
+        for name, b in self.backends.items():
+            self.ctx.check(prop + ".backend_config")
+            if b.n_shots != self.model_shots[name] or b.freq_threshold != 1e-10:
+                V.append(Violation(prop, "backend-configuration-changed", f"{site}:{name}",
+                                   {"n_shots": b.n_shots, "expected_n_shots": self.model_shots[name], "freq_threshold": b.freq_threshold}))
+                b.n_shots = self.model_shots[name]
+                b.freq_threshold = 1e-10
+        return V
 
     @staticmethod
     def preload():
@@ -124,7 +141,7 @@ class GateSemanticsWorld(_DeviceBase):
             if b == "sympy":
                 n = min(n, 3)
                 kinds = [k for k in ("one", "par", "c", "cpar", "swap") if True]
-                gates = D.gen_unitary_gates(rng, n, rng.randint(1, 4), kinds=kinds)
+                gates = D.gen_unitary_gates(rng, n, rng.randint(0, 4), kinds=kinds)      # 0 gates: the empty-circuit shortcut of Backend.simulate
                 if rng.random() < 0.3 and n >= 2:
                     gates.append(C.gen_gate_j(rng, n, allow=("xx", "cswap", "mc", "swap")))     # partly outside sympy's gate set
             else:
@@ -158,8 +175,12 @@ class GateSemanticsWorld(_DeviceBase):
         ctx, V, k = self.ctx, [], op["k"]
         if k == "set_shots":
             self.backends[op["b"]].n_shots = int(op["ns"])
+            self.model_shots[op["b"]] = int(op["ns"])
             ctx.outcome(k, "ok")
             return V
+        if k not in ("mutate_circ",):
+            V = self._apply_call(op)
+            return V + self._backend_config_violations("C01", op.get("k", ""))
         if k == "mutate_circ":
             if not self.circ_pool:
                 ctx.outcome(k, "skipped")
@@ -196,6 +217,11 @@ class GateSemanticsWorld(_DeviceBase):
             if [g[:4] for g in snap_now] != [[g[0], list(g[1]), (list(g[2]) if g[2] is not None else None), g[3]] for g in e["gates"]]:
                 raise HarnessError(f"circuit pool model out of sync after {how}")
             return V
+        raise HarnessError(k)
+
+    def _apply_call(self, op):
+        from dsim import rngseam
+        ctx, V, k = self.ctx, [], op["k"]
         if k == "repeat":
             orig = op["orig"]
             key = json.dumps(orig, sort_keys=True)
@@ -461,13 +487,27 @@ class ExpectationWorld(_DeviceBase):
         if cfg["faults"] and self.ctx.faults.random() < 0.08:
             op["terms"].append([[[n + 1, "Z"]], 0.5])
             op["fault"] = "rejected_op.operator_beyond_circuit"
+        elif cfg["faults"] and b in ("cirq", "cirq_shots") and self.ctx.faults.random() < 0.1:
+            if self.ctx.faults.random() < 0.5:
+                op["bad_init"] = self.ctx.faults.choice([1, 2, -1])          # initial statevector of the wrong length
+                op["fault"] = "rejected_params.initial_statevector_length"
+            elif desired is None:
+                op["bad_desired"] = self.ctx.faults.choice(["0", "1", "01"])  # desired outcome for a circuit without MEASURE
+                op["fault"] = "rejected_params.desired_without_measure"
         return op
 
     def apply(self, op):
+        V = self._apply_inner(op)
+        if op["k"] in ("expval", "variance", "stderr"):
+            V = V + self._backend_config_violations("C02", op["k"])
+        return V
+
+    def _apply_inner(self, op):
         from tangelo.toolboxes.operators import QubitOperator
         ctx, V, k = self.ctx, [], op["k"]
         if k == "set_shots":
             self.backends[op["b"]].n_shots = int(op["ns"])
+            self.model_shots[op["b"]] = int(op["ns"])
             ctx.outcome(k, "ok")
             return V
         if k == "mutate_op":
@@ -597,6 +637,12 @@ class ExpectationWorld(_DeviceBase):
             expect = "either"
         elif desired is not None and ns is not None and ns * p_branch < 40:
             expect = "either"          # raw shots are post-selected: possibly no survivor at all
+        bad_args = bool(op.get("bad_init")) or (bool(op.get("bad_desired")) and not has_meas)
+        if bad_args:
+            # malformed arguments (wrong-length initial statevector, desired outcome for a circuit without MEASURE): most
+            # routes refuse them, some ignore them. Refusal is not demanded; what matters is the aftermath (backend
+            # configuration and later calls), checked after every step.
+            expect = "either"
         if op["b"] == "sympy":
             self.sympy_used += 1
         # instance-level recorder of the internal simulate calls (public method, wrapped on the instance)
@@ -619,6 +665,11 @@ class ExpectationWorld(_DeviceBase):
             kw = {"initial_statevector": init_sut}
             if desired is not None:
                 kw["desired_meas_result"] = desired
+            if op.get("bad_init"):
+                m = max(1, 2 ** n + int(op["bad_init"]))
+                kw["initial_statevector"] = np.ones(m, dtype=complex) / math.sqrt(m)
+            if op.get("bad_desired") and not has_meas:
+                kw["desired_meas_result"] = op["bad_desired"]
             if k == "expval":
                 got = b.get_expectation_value(qop, circ, **kw)
             elif k == "variance":
@@ -637,6 +688,8 @@ class ExpectationWorld(_DeviceBase):
                 ctx.fault(op.get("fault") or "rejected_op.mixed_state_without_shots")
             elif expect == "either":
                 ctx.outcome(k, "refused-undetermined")
+                if bad_args:
+                    ctx.fault(op.get("fault", "rejected_params.other"))
             else:
                 ctx.outcome(k, "refused-unexpectedly")
                 V.append(Violation("C02", "unexpected-refusal", site, {"exception": repr(exc)[:300], "op": op}))
@@ -644,8 +697,8 @@ class ExpectationWorld(_DeviceBase):
         if expect == "reject":
             ctx.outcome(k, "accepted-invalid")
             return [Violation("C02", "documented-refusal-missing", site, {"returned": repr(got)[:80], "op": op})]
-        if beyond:
-            ctx.outcome(k, "ok-beyond-width-not-judged")
+        if beyond or bad_args:
+            ctx.outcome(k, "ok-not-judged")
             return V
         ctx.outcome(k, "ok")
         try:
